@@ -88,7 +88,13 @@ Record InvC (g : config) : Prop := {
       exists cl, get_client g c = Some cl /\ c_h cl = Some cur /\ c_mu cl = Some t /\
                  (k = KRelease -> c_released cl = true);
   inv_cmu : forall c cl t, get_client g c = Some cl -> c_mu cl = Some t ->
-      exists k cur, pc_of g t (CWalk k c cur)
+      exists k cur, pc_of g t (CWalk k c cur);
+  (* a released client whose mutex is free has no hook any more (Release has completed) *)
+  inv_rel : forall c cl, get_client g c = Some cl -> c_released cl = true -> c_mu cl = None ->
+      c_h cl = None;
+  (* only Release walks a released client *)
+  inv_nrel : forall t k c cur cl, pc_of g t (CWalk k c cur) -> get_client g c = Some cl ->
+      k <> KRelease -> c_released cl = false
 }.
 
 Record InvF (g : config) : Prop := {
